@@ -261,6 +261,7 @@ type HistoryRun struct {
 	Executed []string // ops as executed (conflict aborts replace the rest of a transaction)
 	Base     *Image   // files when recording started
 	Events   []IOEvent
+	tail     []IOEvent // writes after the history's last operation (harness heap walk evictions)
 	Final    *Image // files after the run (conformance)
 	// States[j] = committed model state after the first j commits (States[0] = seed state)
 	States []*Model
@@ -404,8 +405,9 @@ func RunHistory(seed *CrashSeed, ops []HOp) *HistoryRun {
 		}
 	}
 done:
-	rec.On = false
-	hr.Events = rec.Events
+	// the heap walk below may evict dirty pages (small pools): those writes are not part of the history
+	// (no crash point is placed in them) but they are part of what Conforms compares
+	nDone := len(rec.Events)
 	guard(func() {
 		for _, tm := range db.Cat().GetAllTables() {
 			if *tm.GetTableName() == "columns_catalog" {
@@ -424,6 +426,9 @@ done:
 			}
 		}
 	})
+	rec.On = false
+	hr.Events = rec.Events[:nDone:nDone]
+	hr.tail = rec.Events[nDone:]
 	db.Kill()
 	hr.Final = readImage(path)
 	return hr
@@ -461,6 +466,9 @@ func (hr *HistoryRun) Conforms() bool {
 	im := hr.Base.clone()
 	for i := range hr.Events {
 		im.apply(&hr.Events[i], -1)
+	}
+	for i := range hr.tail {
+		im.apply(&hr.tail[i], -1)
 	}
 	return bytes.Equal(im.DB, hr.Final.DB) && bytes.Equal(im.Log, hr.Final.Log)
 }
